@@ -57,7 +57,11 @@ fn step(i: &mut Inst, n: usize) {
             }
             // a salt of invalid length: the refusal (or whatever happens) is the same everywhere (seed C19f)
             let bad = i.app.instantiate2_contract(9, user.clone(), &Script::new(), &[], "b0", None, Binary::from(vec![]));
-            format!("{:?} {:?}", r.map_err(|e| e.to_string()), bad.map_err(|e| e.to_string()))
+            // ... and a creator whose address the Api cannot canonicalize, twice (seed C19j)
+            let odd = cosmwasm_std::Addr::unchecked("owner");
+            let o1 = i.app.instantiate2_contract(9, odd.clone(), &Script::new(), &[], "o1", None, Binary::from(b"s".to_vec()));
+            let o2 = i.app.instantiate2_contract(9, odd, &Script::new(), &[], "o2", None, Binary::from(b"s".to_vec()));
+            format!("{:?} {:?} {:?} {:?}", r.map_err(|e| e.to_string()), bad.map_err(|e| e.to_string()), o1.map_err(|e| e.to_string()), o2.map_err(|e| e.to_string()))
         }
         3 => {
             // a transaction with a caught failure inside
